@@ -2,6 +2,8 @@
 import containers
 import id3file_tie
 import dsf_tie
+import asf_tie
+import ogginject_tie
 import iff_tie
 import apefile_tie
 
@@ -17,6 +19,8 @@ def run(ctx):
     containers.run_histories(ctx, {"wf", "info"}, RULE)
     id3file_tie.run(ctx)
     dsf_tie.run(ctx)
+    asf_tie.run(ctx)
+    ogginject_tie.run(ctx)
     iff_tie.run(ctx)
     apefile_tie.run(ctx)
 
